@@ -281,6 +281,16 @@ func init() {
 				e.c04case("builtin-long", fmt.Sprintf("<%%= %s(%s) %%>", b, al), false, nil)
 			}
 		}
+		// groupBy: every (size, length) shape, the groups drained and their elements printed
+		for size := 0; size <= 7; size++ {
+			for n := 0; n <= 9; n++ {
+				els := make([]string, n)
+				for i := range els {
+					els[i] = fmt.Sprint(i + 1)
+				}
+				e.c04case("groupby-shapes", fmt.Sprintf("<%%= for (g) in groupBy(%d, [%s]) { %%>[<%%= for (x) in g { %%><%%= x %%><%% } %%>]<%% } %%>", size, strings.Join(els, ", ")), true, nil)
+			}
+		}
 		// cyclic data built by the template itself: runs in a subprocess because a
 		// Go stack overflow is fatal for the whole process
 		if out, err := exec.Command(os.Args[0], "-prop", "C04", "-witness", "cyclic").CombinedOutput(); err != nil && strings.Contains(string(out), "stack overflow") {
